@@ -10,6 +10,7 @@
   The index computation mirrors the code's wrapping `u64` arithmetic exactly.
 -/
 import MiniMoka.Basic
+import MiniMoka.Gen.Constants
 
 namespace MiniMoka
 
@@ -23,10 +24,10 @@ structure Sketch where
 namespace Sketch
 
 def SEED : Nat → UInt64
-  | 0 => 0xc3a5c85c97cb3127
-  | 1 => 0xb492b66fbe98f273
-  | 2 => 0x9ae16a3b2f90404f
-  | _ => 0xcbf29ce484222325
+  | 0 => Gen.SEED0.toUInt64
+  | 1 => Gen.SEED1.toUInt64
+  | 2 => Gen.SEED2.toUInt64
+  | _ => Gen.SEED3.toUInt64
 
 /-- `u32::next_power_of_two` for arguments up to 2^30 (fuel 32 suffices). -/
 def nextPow2Go (n : Nat) : Nat → Nat → Nat
@@ -37,18 +38,19 @@ def nextPow2 (n : Nat) : Nat := nextPow2Go n 32 1
 
 /-- `common::sketch_capacity`: `max_capacity.try_into().unwrap_or(u32::MAX).max(128)`. -/
 def sketchCapacity (maxCapacity : Nat) : Nat :=
-  max (min maxCapacity U32_MAX) 128
+  max (min maxCapacity U32_MAX) Gen.SKETCH_MIN_CAPACITY
 
 /-- `ensure_capacity` on a 64-bit target. `cap` is a `u32`. -/
 def ensureCapacity (s : Sketch) (cap : Nat) : Sketch :=
-  let maximum := min cap (2 ^ 30)
+  let maximum := min cap (2 ^ Gen.SKETCH_MAX_TABLE_POW)
   let tableSize := if maximum = 0 then 1 else nextPow2 maximum
   if s.table.size ≥ tableSize then s
   else
     { s with
       table := Array.replicate tableSize 0
       mask := tableSize - 1
-      sampleSize := if cap = 0 then 10 else min (min (maximum * 10) U32_MAX) 2147483647 }
+      sampleSize := if cap = 0 then Gen.SKETCH_ZERO_CAP_SAMPLE
+                    else min (min (maximum * Gen.SKETCH_SAMPLE_FACTOR) U32_MAX) 2147483647 }
 
 /-- Counter `j` (0..15) of word `w`. -/
 def nib (w j : Nat) : Nat := w / 16 ^ j % 16
